@@ -82,6 +82,8 @@ def _c05(V, spec_id, group, base):
         except AttributeError:
             got = ('absent',)
         if n in m['attrs']:
+            if got[0] == 'absent' and may_be_absent(m['attrs'][n]):
+                continue
             V.check(got[0] == 'v' and val_ok(m['attrs'][n], got[1]), 'contract:getattr', lambda: det() + ' attr %s -> %r' % (n, got))
         elif n in m['deferred']:
             V.check(got[0] == 'v' and val_ok(m['deferred'][n], got[1]), 'contract:deferred-default', lambda: det() + ' attr %s -> %r' % (n, got))
@@ -90,6 +92,8 @@ def _c05(V, spec_id, group, base):
             V.check(got[0] == 'absent', 'contract:getattr-absent', lambda: det() + ' attr %s -> %r' % (n, got))
         if base == 'Schema':
             on = dcspec.out_name(f)
+            if on in m['keys'] and may_be_absent(m['keys'][on]):
+                continue
             V.check((on in m['keys']) == dict.__contains__(inst, on), 'contract:contains', det)
             for spelling in dcspec.names_of(f):
                 V.check((spelling in inst) == (on in m['keys']), 'contract:contains-alias', lambda: det() + ' %r in inst' % spelling)
